@@ -734,8 +734,10 @@ class Sym:
             if op in ("eq", "ne"):
                 e = s_and([_cmp0(d.re, "eq"), _cmp0(d.im, "eq")])
                 return e if op == "eq" else ~e
-            # numpy compares complex lexicographically; quara never relies on it
-            raise NotImplementedError("ordering of complex symbols")
+            # numpy orders complex numbers lexicographically (real part first, then imaginary part)
+            strict = "lt" if op in ("lt", "le") else "gt"
+            lex = s_or([_cmp0(d.re, strict), s_and([_cmp0(d.re, "eq"), _cmp0(d.im, op)])])
+            return lex.a if lex.k == "const" else lex
         r = _cmp0(d.re, op)
         if r.k == "const":
             return r.a
@@ -1004,7 +1006,12 @@ class Ctx:
             return math.sqrt(float(p.eval(env)))
         a = self.fresh("sqrt", ev=ev)
         r = Poly.atom(a)
-        self.add_def(z3.And(r.mul(r).z3() == s.re.z3(), a.z3v >= 0))
+        az = s.re.z3()
+        # r*r == a (linear in the monomial variable r*r) plus linear facts that keep the relaxation sharp:
+        # r >= 0, (a > 0 -> r > 0), r <= (a+1)/2 (AM-GM), and r >= a when a <= 1, r <= a when a >= 1
+        self.add_def(z3.And(r.mul(r).z3() == az, a.z3v >= 0, z3.Implies(az > 0, a.z3v > 0), 2 * a.z3v <= az + 1,
+                            z3.Implies(az <= 1, a.z3v >= az), z3.Implies(az >= 1, a.z3v <= az), z3.Implies(az >= 1, a.z3v >= 1),
+                            z3.Implies(az <= 1, a.z3v <= 1)))
         return Sym(r)
 
     def def_divmod(self, a: Sym, b: Sym):
